@@ -48,13 +48,14 @@ Local Open Scope N_scope.
 
 
 def certificates(rows, shard=6, timeout=900):
-    """rows: list of (src_tree_text, out_tree_text). Returns list of bool (erase out = norm src) or None when coqc failed."""
+    """rows: list of (src_tree_text, out_tree_text). Returns per row True (erase out = norm src and the docstring positions are kept),
+    "erase" / "docs" (the check that rejected) or None when coqc failed."""
     shards = [(i, rows[i:i + shard]) for i in range(0, len(rows), shard)]
     texts = []
     for i, rs in shards:
         L = [CERT_HEADER]
         for j, (s, o) in enumerate(rs):
-            L.append("Definition s%d := %s.\nDefinition o%d := %s.\nEval vm_compute in check_erase s%d o%d." % (j, s, j, o, j, j))
+            L.append("Definition s%d := %s.\nDefinition o%d := %s.\nEval vm_compute in (check_erase s%d o%d, check_docs o%d)." % (j, s, j, o, j, j, j))
         texts.append(("rw_cert_%d" % i, "\n".join(L) + "\n"))
     outs = lib.coq_eval_many(texts, timeout=timeout)
     res = []
@@ -64,7 +65,10 @@ def certificates(rows, shard=6, timeout=900):
         if rc != 0 or len(vals) != len(rs):
             res += [None] * len(rs)
         else:
-            res += [v.strip() == "true" for v in vals]
+            for v in vals:
+                b = [x.strip() == "true" for x in v.strip("() ").split(",")]
+                # True, or WHICH check rejected ("erase": the output is not the source plus recognised shapes; "docs": a docstring position is not kept)
+                res.append(None if len(b) != 2 else True if all(b) else "erase" if not b[0] else "docs")
     return res
 
 
@@ -86,8 +90,8 @@ def certificates3(rows, shard=6, timeout=900, prefix="rw_cert3"):
         L = [CERT3_HEADER]
         for j, (s, o, sub) in enumerate(rs):
             subs = "; ".join(str(code[e]) for e in sub)
-            L.append("Definition s%d := %s.\nDefinition o%d := %s.\nEval vm_compute in (check_erase s%d o%d, check_sites s%d o%d, check_site_events [%s] o%d)."
-                     % (j, s, j, o, j, j, j, j, subs, j))
+            L.append("Definition s%d := %s.\nDefinition o%d := %s.\nEval vm_compute in (check_erase s%d o%d, check_sites s%d o%d, check_site_events [%s] o%d, check_docs o%d)."
+                     % (j, s, j, o, j, j, j, j, subs, j, j))
         texts.append(("%s_%d" % (prefix, i), "\n".join(L) + "\n"))
     outs = lib.coq_eval_many(texts, timeout=timeout)
     res = []
@@ -99,5 +103,5 @@ def certificates3(rows, shard=6, timeout=900, prefix="rw_cert3"):
         else:
             for v in vals:
                 b = [x.strip() == "true" for x in v.strip("() ").split(",")]
-                res.append({"erase": b[0], "sites": b[1], "site_events": b[2]} if len(b) == 3 else None)
+                res.append({"erase": b[0] and b[3], "sites": b[1], "site_events": b[2], "docs": b[3]} if len(b) == 4 else None)
     return res
